@@ -234,7 +234,7 @@ class Machine:
 
     def emit(self, tok):
         self.tr[self.s.pid()].append(tok)
-        self.glob.append((self.s.pid(), tok))
+        self.glob.append((self.s.pid(), tok, PIN in self.w.pins))
 
     def kind(self, path):
         if path == PIN:
@@ -694,24 +694,28 @@ def show(case, m, objs, info, v):
     sysl = (f"dir={d} pin={opt(w.pins.get(PIN))} att={opt(w.attached)} mbx={'true' if w.lookup(MBX) is not None else 'false'} "
             f"fm={'-' if fm is None else 'x' + fm.hex()} lock={opt(lock)}")
     viol = " ".join(f"{k}={opt(v[k])}" for k in ("ed", "si", "iw", "fw"))
-    return " ; ".join(parts) + " ;; " + sysl + " ;; " + viol
+    return " ; ".join(parts) + " ;; " + sysl + " ;; " + viol + f" quiet={'true' if v['quiet'] else 'false'}"
 
 
 def predicates(case, glob):
     """defect classes as predicates on the schedule (= on the order of operations it produces)"""
     n = len(case["cfgs"])
-    late = [False] * n       # removed its member file, has not yet finished remove(programs)
-    started = [False] * n    # past the start section (obj_get ok / obj_pin ok) or ended
+    late = [False] * n       # last leaver: its rmdir succeeded, its remove(programs) has not happened yet
+    left = [False] * n       # has executed `leave`
     creating = None          # pid between the O_EXCL create of the bitmap file and its initialising write
-    race = window = rmtree = False
-    for pid, t in glob:
-        if t.startswith(("mkdtemp", "open_", "rename", "rmtree_tmp", "obj_get", "create_map", "attach", "obj_pin")) \
-                or (t.startswith("remove_pin") and not late[pid]):
-            if any(late[q] for q in range(n) if q != pid):
-                race = True
-        if t == "remove_member:ok" and "leave" in [x for q, x in glob if q == pid]:
+    race = stale = window = rmtree = False
+    for pid, t, pin_exists in glob:
+        start_op = t.startswith(("mkdtemp", "open_", "rename", "rmtree_", "obj_get", "create_map", "attach", "obj_pin")) \
+            or (t.startswith(("remove_pin", "remove_member")) and not left[pid])
+        if start_op and any(late):
+            race = True
+        if t == "rename:ok" and pin_exists:
+            stale = True
+        if t == "leave":
+            left[pid] = True
+        if t == "rmdir:ok":
             late[pid] = True
-        if t in ("rmdir:fail",) or (t.startswith("remove_pin") and late[pid]):
+        if t.startswith("remove_pin") and left[pid]:
             late[pid] = False
         if t.startswith("fm_") and creating is not None and pid != creating:
             window = True
@@ -721,7 +725,8 @@ def predicates(case, glob):
             creating = None
         if t == "rmtree_lock":
             rmtree = True
-    return {"leaver-starter-race": race, "fmmu-create-window": window, "installer-fault-rmtree": rmtree,
+    return {"leaver-starter-race": race, "stale-programs-file": stale, "fmmu-create-window": window,
+            "installer-fault-rmtree": rmtree,
             "fmmu-window-overflow": any(c["naddr"] >= WINDOW_GROUPS for c in case["cfgs"])}
 
 
@@ -738,13 +743,15 @@ def evaluate(ctx, case):
         logging.disable(logging.NOTSET)
     v = clauses(obs)
     pr = predicates(case, m.glob)
+    v["quiet"] = not (pr["leaver-starter-race"] or pr["stale-programs-file"])   # hypothesis of installed_while_running_partial
     line = show(case, m, objs, info, v)
     seen = f"first violating prefix per clause {v}; classes {sorted(k for k, b in pr.items() if b)}"
     fault = "installer-fault-rmtree" if pr["installer-fault-rmtree"] else None
     ctx.require(v["ed"] is None, "two participants hold the same ethertype", case, seen, fault)
     ctx.require(v["si"] is None, "two participants are in the install section at once", case, seen, fault)
     ctx.require(v["iw"] is None, "a participant runs without the dispatcher attached / its program table pinned",
-                case, seen, "leaver-starter-race" if pr["leaver-starter-race"] else fault)
+                case, seen, "leaver-starter-race" if pr["leaver-starter-race"] else
+                "stale-programs-file" if pr["stale-programs-file"] else fault)
     if v["fw"] is not None:
         o = obs[v["fw"]]
         ws = [p["win"] for p in o["procs"] if p["running"]]
@@ -806,6 +813,8 @@ def nontrivial(m):
 
 def kind_of(v, pr, m):
     bad = [k for k in ("ed", "si", "iw", "fw") if v[k] is not None]
+    if not bad and not v["quiet"]:
+        return "race-window-no-violation"
     return ("viol:" + "+".join(bad)) if bad else ("race-window" if any(pr.values()) else "clean")
 
 
